@@ -150,3 +150,32 @@ Proof.
   intros H. pose proof (single_arch_nothing by_arch H) as E. split; [exact E|].
   intros a U W scheds. unfold dq_for. rewrite E. reflexivity.
 Qed.
+
+(* ---- "a successful result satisfies every request" is false too ------------------------ *)
+(* C02-F1c: the requested provider is dropped by the de-duplication by name *)
+Definition U_F1c : universe := [wp "d" "2.0" ["l"] ["k"] []; wp "d" "1.0" [] ["l"] []].
+(* C02-F6: an install_if package of the requested name, added without consulting dq *)
+Definition U_F6 : universe :=
+  [wp "a" "1.0" [] [] []; wp "r" "1.0" ["a"] [] []; wp "c" "5.0" [] [] ["a"]; wp "c" "1.0" [] [] []].
+
+Definition request_refutes (U : universe) (W : list string) (scheds : list (list string)) (w tag : string) : Prop :=
+  exists S, resolve U W [] scheds = Ok S /\ In w W /\ ~ satisfies_dep (pkgs_of U S) w /\
+            In tag (closed_check U W (pkgs_of U S)).
+
+Lemma request_refute_by_check U W scheds S w tag :
+  resolve U W [] scheds = Ok S -> In w W ->
+  satisfies_dep_b (List.map cook_pkg (pkgs_of U S)) (cook_str w) = false ->
+  In tag (closed_check U W (pkgs_of U S)) -> request_refutes U W scheds w tag.
+Proof.
+  intros H Hw B T. exists S. split; [exact H|]. split; [exact Hw|]. split; [|exact T].
+  intro C. apply satisfies_dep_b_spec in C. congruence.
+Qed.
+
+Lemma request_unsat_refuted_lemma :
+  request_refutes U_F1c ["k"] [] "k" "request-unsat/sibling-of-member" /\
+  request_refutes U_F6 ["r"; "c<2"] [["a"]] "c<2" "request-unsat/install-if-member".
+Proof.
+  split.
+  - apply (request_refute_by_check _ _ _ [1]); vm_compute; [reflexivity | left; reflexivity | reflexivity | left; reflexivity].
+  - apply (request_refute_by_check _ _ _ [0; 2; 1]); vm_compute; [reflexivity | right; left; reflexivity | reflexivity | left; reflexivity].
+Qed.
